@@ -17,7 +17,7 @@ done
 for p in mutants/*.patch; do
   n=$(basename "$p" .patch)
   case "$n" in
-    neutral-c10-*) run "$V/$p" C10 0;; neutral-c11-*) run "$V/$p" C11 0;; neutral-c12-*) run "$V/$p" C12 0; run "$V/$p" C11 0;; neutral-c14-*) run "$V/$p" C14 0;; neutral-c18-*) run "$V/$p" C18 0;;
+    neutral-c10-*) run "$V/$p" C10 0;; neutral-c11-*) run "$V/$p" C11 0;; neutral-c12-*) run "$V/$p" C12 0; run "$V/$p" C11 0;; neutral-c13-*) run "$V/$p" C13 0;; neutral-c14-*) run "$V/$p" C14 0;; neutral-c18-*) run "$V/$p" C18 0;;
     c14-rbuf-reused) run "$V/$p" C14 0;;
     revert-F1) run "$V/$p" C10 1;; revert-F2) run "$V/$p" C11 1; run "$V/$p" C12 1;; revert-F3) run "$V/$p" C18 1;; revert-F4) run "$V/$p" C08 1;;
     c10-*) run "$V/$p" C10 1;; c11-*) run "$V/$p" C11 1;; c12-*) run "$V/$p" C12 1;; c13-*) run "$V/$p" C13 1;; c18-*) run "$V/$p" C18 1;; c08-*) run "$V/$p" C08 1;; c14-*) run "$V/$p" C14 1;;
